@@ -228,7 +228,13 @@ public:
     void *alloc(std::size_t sz) {
         void *ptr = Alloc::alloc(sz+sizeof(T));
         void *inv = static_cast<std::uint8_t *>(ptr)+sz;
-        inventory = new(inv) T(_factory());
+        try {
+            inventory = new(inv) T(_factory());
+        } catch (...) {
+            //no frame will exist: give the memory back (clears _busy / deletes a heap block)
+            Alloc::dealloc(ptr,sz+sizeof(T));
+            throw;
+        }
        return ptr;
     }
 
